@@ -112,13 +112,15 @@ Proof. exact info_changes_nothing. Qed.
 Print Assumptions C14_info_changes_nothing.
 
 (* Unknown-outcome commits (storage.ErrUncertainResult: the engine cannot tell whether the write landed;
-   environment outcome CUnknown = takes effect iff its condition holds, CErr = lost) are part of every
+   environment outcome CUnknown = takes effect iff its condition holds, CErr = lost; CRefused = the engine refuses a
+   write whose condition holds, e.g. TiKV answering the prewrite with a Retryable / Abort key error) are part of every
    theorem above (the label lists range over all environment outcomes). The lock object reports them
    only as errors, never as an acquisition; and success is reported only for a write that took effect —
    which is why the oracle treats every call that returned nil as an applied-write claim. *)
 Theorem C14_unknown_never_success : forall st k h b t,
   o_res (do_create st k h b CUnknown t) <> ROk /\ o_res (do_update st k h b CUnknown t) <> ROk /\
-  o_res (do_create st k h b CErr t) <> ROk /\ o_res (do_update st k h b CErr t) <> ROk.
+  o_res (do_create st k h b CErr t) <> ROk /\ o_res (do_update st k h b CErr t) <> ROk /\
+  o_res (do_create st k h b CRefused t) <> ROk /\ o_res (do_update st k h b CRefused t) <> ROk.
 Proof. exact unknown_never_success. Qed.
 Print Assumptions C14_unknown_never_success.
 
